@@ -110,6 +110,11 @@ def verus_engine(prop, tier, scratch):
             # a spec-level lemma failed: machinery, not code
             undecided.append(c)
             continue
+        if key and key[1] in set(info.get('lost_hints', [])):
+            # the function lost a statement-anchored proof hint on this tree: an unproved obligation is undecided
+            c = dict(c, kind='tool', msg='proof hint anchor lost in %s; then: %s' % (key[1], c['msg']))
+            undecided.append(c)
+            continue
         if prop in attributed:
             failures.append(c)
     for key, n in sorted(expected.items()):
